@@ -43,7 +43,7 @@ func runC18B() {
 	for i := lo; i < hi; i++ {
 		r := c.SubRand(int64(i))
 		cs := c18bCase{Phases: 2 + r.Intn(3), Appenders: 1 + r.Intn(6), PerApp: 20 + r.Intn(200), Keepers: 1 + r.Intn(4),
-			PerKeep: 10 + r.Intn(100), Readers: r.Intn(3), Initial: 5 + r.Intn(40)}
+			PerKeep: 10 + r.Intn(100), Readers: 1 + r.Intn(3), Initial: 5 + r.Intn(40)}
 		id := c.Case(cs)
 		ro := task.VerifNewRoster()
 		mk := func(tid string) *task.Task {
@@ -80,6 +80,8 @@ func runC18B() {
 				}
 			}
 			start := make(chan struct{})
+			var rmu sync.Mutex
+			badSel := 0
 			var inKeep, inAppend, ovl int64
 			var omu sync.Mutex
 			for g := 0; g < cs.Appenders; g++ {
@@ -136,12 +138,25 @@ func runC18B() {
 					<-start
 					for j := 0; j < 50; j++ {
 						_ = ro.GetTaskIds()
-						_ = ro.Filtered(func(t *task.Task) bool { return t.GetHostname() == "host1" })
+						// a selection that is not a prefix of the roster (every other task, by the last digit of its id)
+						sel := ro.Filtered(func(t *task.Task) bool { id := t.GetTaskId(); return (id[len(id)-1]-'0')%2 == byte(j%2) })
+						for _, t := range sel {
+							if id := t.GetTaskId(); (id[len(id)-1]-'0')%2 != byte(j%2) {
+								rmu.Lock()
+								badSel++
+								rmu.Unlock()
+							}
+						}
+						_ = ro.Contains(func(t *task.Task) bool { return t.GetTaskId() == "no-such-task" })
 					}
 				}()
 			}
 			close(start)
 			wg.Wait()
+			if badSel > 0 {
+				c.Violation("ROSTER-CONSERVATION", "filtered-returns-tasks-the-filter-rejects",
+					fmt.Sprintf("%d task(s) returned by filtered() do not satisfy the filter they were selected with", badSel), id, map[string]interface{}{"case": cs, "phase": ph})
+			}
 			overlaps += ovl
 			for _, v := range appended {
 				expect[v] = true
